@@ -214,12 +214,16 @@ def run_combined(seed):
     conflict = rng.random() < 0.5
     nparents = 2 if conflict else rng.choice([2, 2, 3])
     nconf = rng.choice([1, 1, 2, 3])
+    r3 = engine.item_rng(engine.stable_hash((seed, 'c01-cc-extra')))
+    unterminated = conflict and r3.random() < 0.15
+    note = (not conflict) and r3.random() < 0.15
     lines, model, path = corpus.gen_combined(rng, conflict=conflict, nparents=nparents, nhunks=rng.choice([1, 1, 2, 3]), nconflicts=nconf, styles=('diff3', 'merge'),
-                                              lead=rng.choice([None, None, None, 0]) if conflict else None)
+                                              lead=rng.choice([None, None, None, 0]) if conflict else None, unterminated=unterminated, note=note)
     nsec = 1
     while rng.random() < 0.3 and nsec < 3:
         # a further file section (with its own conflict regions) in the same input
-        l2, m2, _p2 = corpus.gen_combined(rng, conflict=conflict, nparents=nparents, nhunks=rng.choice([1, 2]), nconflicts=rng.choice([1, 2]), styles=('diff3', 'merge'))
+        l2, m2, _p2 = corpus.gen_combined(rng, conflict=conflict, nparents=nparents, nhunks=rng.choice([1, 2]), nconflicts=rng.choice([1, 2]), styles=('diff3', 'merge'),
+                                           unterminated=conflict and r3.random() < 0.1)
         lines, model = lines + l2, model + m2
         nsec += 1
     opts = gen.tagged_styles()
@@ -230,7 +234,8 @@ def run_combined(seed):
     opts['--merge-conflict-theirs-diff-header-style'] = T['mc_theirs']
     opts['--merge-conflict-ours-diff-header-decoration-style'] = (T['mc_ours_dec'] + ' ' + rng.choice(['box', 'ul', ''])).strip()
     opts['--merge-conflict-theirs-diff-header-decoration-style'] = (T['mc_theirs_dec'] + ' ' + rng.choice(['box', 'ul', ''])).strip()
-    cls = ['combined', 'conflict' if conflict else 'no-conflict', 'parents%d' % nparents, 'sections%d' % nsec] + (['conflicts%d' % nconf] if conflict else [])
+    cls = ['combined', 'conflict' if conflict else 'no-conflict', 'parents%d' % nparents, 'sections%d' % nsec] + (['conflicts%d' % nconf] if conflict else []) + \
+        (['unterminated-region'] if unterminated else []) + (['no-newline-note-mid-hunk'] if note else [])
     tabs = 8
     if rng.random() < 0.4:
         opts['--line-numbers'] = True
